@@ -166,8 +166,16 @@ def check(case):
                     obs.append(sorted((str(k), sorted(v)) for k, v in got.items()))
                     if not compare(got, exp):
                         gset = {k: set(v) for k, v in got.items()}
-                        extra = {k: gset[k] - exp.get(k, set()) for k in gset if gset[k] - exp.get(k, set())}
+                        # the statement gives two bounds: *only* lemmas of words of that part of speech, and *always*
+                        # the three kinds of required lemmas - a further valid lemma is not a violation
+                        lem_of = {}
+                        for x in words:
+                            lem_of.setdefault(x['pos'], set()).add(x['forms'][0])
+                        extra = {k: gset[k] - exp.get(k, set()) - lem_of.get(k, set()) for k in gset
+                                 if gset[k] - exp.get(k, set()) - lem_of.get(k, set())}
                         miss = {k: exp[k] - gset.get(k, set()) for k in exp if exp[k] - gset.get(k, set())}
+                        if not extra and not miss and all(v for v in gset.values()):
+                            continue
                         key = 'init:' + ('invalid-lemma-returned' if extra else '') + ('valid-lemma-missing' if miss else '') \
                             + ('empty-set' if not extra and not miss else '')
                         V.append((key, f'Morphy(wn)({q!r}, {pos!r}) = {got} expected {exp} :: words {[(x["pos"], x["forms"]) for x in words]}', None, g))
@@ -176,7 +184,7 @@ def check(case):
                 with warnings.catch_warnings():
                     warnings.simplefilter('ignore')
                     wl = wn.Wordnet(lexicon=f'{lid}:1', expand='', lemmatizer=lem)
-                for q in qs[:6]:
+                for q in qs[:6] + qs[-3:]:
                     for pos in (None, 'n', 'v', 'a', 's'):
                         for kind, fn in (('words', wl.words), ('senses', wl.senses), ('synsets', wl.synsets)):
                             n += 1
